@@ -4,6 +4,7 @@ import typing as t
 from urllib.parse import quote
 
 from .._internal import _plain_int
+from ..exceptions import BadRequest
 from ..exceptions import SecurityError
 from ..urls import uri_to_iri
 
@@ -144,9 +145,17 @@ def get_current_url(
     """
     url = [scheme, "://", host]
 
+    def _url_to_iri() -> str:
+        try:
+            return uri_to_iri("".join(url))
+        except ValueError as e:
+            # The host sent by the client is not a valid URL authority, for
+            # example unbalanced brackets or a port that is not a number.
+            raise BadRequest(f"Invalid host {host!r}.") from e
+
     if root_path is None:
         url.append("/")
-        return uri_to_iri("".join(url))
+        return _url_to_iri()
 
     # safe = https://url.spec.whatwg.org/#url-path-segment-string
     # as well as percent for things that are already quoted
@@ -154,7 +163,7 @@ def get_current_url(
     url.append("/")
 
     if path is None:
-        return uri_to_iri("".join(url))
+        return _url_to_iri()
 
     url.append(quote(path.lstrip("/"), safe="!$&'()*+,/:;=@%"))
 
@@ -162,7 +171,7 @@ def get_current_url(
         url.append("?")
         url.append(quote(query_string, safe="!$&'()*+,/:;=?@%"))
 
-    return uri_to_iri("".join(url))
+    return _url_to_iri()
 
 
 def get_content_length(
